@@ -94,6 +94,12 @@ Prefix == CASE PrefixId = "vac" -> <<>>
                                       Op("Dgate", <<Q(1, 4), a345>>, <<0>>), Op("LossChannel", <<Q(4, 5)>>, <<2>>) >>
             [] PrefixId = "p3"  -> << Op("Sgate", <<Q(4, 3), A0>>, <<0>>), Op("BSgate", <<a345, A0>>, <<0, 2>>),
                                       Op("Dgate", <<Q(1, 4), APi2>>, <<1>>), Op("BSgate", <<a435, APi2>>, <<2, 1>>) >>
+            \* histories with a deleted mode: every operation is then applied through the simulators' mode maps
+            [] PrefixId = "x3"  -> << Op("S2gate", <<Q(4, 3), A0>>, <<0, 1>>), Op("BSgate", <<a345, APi2>>, <<1, 2>>),
+                                      Op("Dgate", <<Q(1, 4), a345>>, <<2>>), Op("Del", <<>>, <<0>>) >>
+            [] PrefixId = "x4"  -> << Op("S2gate", <<Q(4, 3), A0>>, <<0, 3>>), Op("BSgate", <<a345, APi2>>, <<1, 2>>),
+                                      Op("S2gate", <<Q(3, 4), APi2>>, <<2, 3>>), Op("Dgate", <<Q(1, 4), a345>>, <<2>>),
+                                      Op("Del", <<>>, <<1>>) >>
             [] PrefixId = "e4"  -> << Op("S2gate", <<Q(4, 3), A0>>, <<0, 3>>), Op("BSgate", <<a345, APi2>>, <<1, 2>>),
                                       Op("S2gate", <<Q(3, 4), APi2>>, <<2, 3>>), Op("Dgate", <<Q(1, 4), a345>>, <<1>>),
                                       Op("LossChannel", <<Q(4, 5)>>, <<0>>) >>
@@ -102,6 +108,7 @@ Init == /\ hist = Prefix
         /\ st = ApplySeq(VacuumN(N), Prefix, K)
 
 Step(op) == /\ Len(hist) - Len(Prefix) < Depth
+            /\ \A j \in 1 .. Len(op.modes) : HasMode(st, op.modes[j])
             /\ hist' = Append(hist, op)
             /\ st' = Apply(st, op, K)
 Next == \E i \in 1 .. Len(Alphabet) : Step(Alphabet[i])
